@@ -280,6 +280,12 @@ fn judge_cli(ctx: &mut Ctx, sub: &str, kind: &str, args: Vec<String>, stdin: Opt
                     crate::refmodel::Exp::Val(v) => {
                         if lines.len() != tr.values.len() + 1 || lines.last().map(|l| *l != v.to_string()).unwrap_or(true) {
                             bad = Some(format!("{} log line(s), then the result line {} (reference model)", tr.values.len(), v));
+                        } else {
+                            // each log line reports its value (as JSON text, or - for a string - its raw content)
+                            let logged: Vec<String> = lines[..lines.len() - 1].iter().map(|l| l.to_string()).collect();
+                            if !crate::ctx::log_matches(&logged, &tr) {
+                                bad = Some(format!("log lines reporting {:?} (reference model)", tr.lines));
+                            }
                         }
                     }
                     crate::refmodel::Exp::Err => {
@@ -362,7 +368,7 @@ pub fn c18(ctx: &mut Ctx) {
                 }
                 // NUL cannot travel in argv; such texts go by stdin only
                 let text = v.to_string();
-                let rules = [r#"{"*":[{"var":""},1]}"#, r#"{"<":[{"var":""},"0x10"]}"#, r#"{"+":[{"var":""}]}"#, r#"{"cat":[{"var":""},{"==":[{"var":""},1]}]}"#];
+                let rules = [r#"{"*":[{"var":""},1]}"#, r#"{"<":[{"var":""},"0x10"]}"#, r#"{"+":[{"var":""}]}"#, r#"{"cat":[{"var":""},{"==":[{"var":""},1]}]}"#, r#"{"log":{"var":""}}"#, r#"{"cat":[{"log":{"cat":["x",{"var":""}]}},{"log":[{"var":""}]}]}"#];
                 let r = rules[i % rules.len()];
                 ctx.edge();
                 if i % 2 == 0 && !text.contains('\u{0}') {
@@ -374,6 +380,49 @@ pub fn c18(ctx: &mut Ctx) {
                     // ... and as a literal inside the rule text
                     let rt = format!(r#"{{"-":[{},0]}}"#, text);
                     judge_cli(ctx, "conversion-corpus:rule", kind, vec![rt.clone(), "null".into()], None, Some((&rt, "null")), true);
+                }
+            }
+        }
+        // logged strings holding every kind of character a quoting routine treats specially (controls, DEL, C1,
+        // no-break space, soft hyphen, zero-width, line separators, BOM, private use, combining marks, astral)
+        for (i, c) in ['\u{8}', '\u{c}', '\u{1}', '\u{1f}', '\u{7f}', '\u{80}', '\u{9f}', '\u{a0}', '\u{ad}', '\u{200b}', '\u{2028}', '\u{2029}', '\u{feff}', '\u{e000}', '\u{301}', '\u{1f600}', '\u{e0001}', '\u{10ffff}', '"', '\\', '/', '\'', '\t', '\r'].iter().enumerate() {
+            if !ctx.mine() {
+                continue;
+            }
+            ctx.edge();
+            let text = serde_json::to_string(&format!("a{}b", c)).unwrap();
+            let raw = format!("\"a{}b\"", c);
+            for r in [r#"{"log":{"var":""}}"#, r#"{"log":[{"var":""}]}"#, r#"{"cat":[{"log":{"var":""}},"!"]}"#] {
+                judge_cli(ctx, "logged-characters", kind, vec![r.to_string(), text.clone()], None, Some((r, &text)), true);
+                if i % 2 == 0 {
+                    judge_cli(ctx, "logged-characters:stdin", kind, vec![r.to_string()], Some(&text), Some((r, &text)), true);
+                }
+            }
+            if !c.is_control() && *c != '"' && *c != '\\' {
+                // the character written raw in the rule text
+                let r = format!(r#"{{"log":{}}}"#, raw);
+                judge_cli(ctx, "logged-characters:raw-in-rule", kind, vec![r.clone(), "null".into()], None, Some((&r, "null")), true);
+            }
+        }
+        // long float texts as data and inside the rule: the tool computes with the same doubles as the library
+        // (both read number texts the same way)
+        for (i, t) in crate::alphabet::long_float_texts().into_iter().enumerate() {
+            if !ctx.mine() {
+                continue;
+            }
+            ctx.edge();
+            match i % 3 {
+                0 => {
+                    judge_cli(ctx, "long-float:data-argument", kind, vec![r#"{"var":""}"#.into(), t.clone()], None, Some((r#"{"var":""}"#, &t)), true);
+                }
+                1 => {
+                    let d = format!(r#"{{"a":{},"b":[{}]}}"#, t, t);
+                    judge_cli(ctx, "long-float:data-stdin", kind, vec![r#"{"===":[{"var":"a"},{"var":"b.0"}]}"#.into()], Some(&d), Some((r#"{"===":[{"var":"a"},{"var":"b.0"}]}"#, &d)), true);
+                    judge_cli(ctx, "long-float:data-stdin", kind, vec![r#"{"var":"a"}"#.into(), "-".into()], Some(&d), Some((r#"{"var":"a"}"#, &d)), true);
+                }
+                _ => {
+                    let r = format!(r#"{{"*":[1,{}]}}"#, t);
+                    judge_cli(ctx, "long-float:rule", kind, vec![r.clone(), "null".into()], None, Some((&r, "null")), true);
                 }
             }
         }
